@@ -8,7 +8,7 @@ start = s.index('| id | change (summary by its author) | first try | strengtheni
 end = s.index('Summary: ', start)
 old_rows = {}
 for line in s[start:end].splitlines():
-    m = re.match(r'\| (C\d\d-[a-z]) \| (.*?) \| (yes|no) \| (.*) \|$', line)
+    m = re.match(r'\| (C\d\d-[a-z]\d?) \| (.*?) \| (yes|no) \| (.*) \|$', line)
     if m:
         old_rows[m.group(1)] = (m.group(3), m.group(4))
 rows = []
@@ -19,7 +19,7 @@ for d in sorted(os.listdir('/verif/seeded')):
         continue
     m = json.load(open('/verif/seeded/%s/meta.json' % d))
     summ = (m.get('summary') or '').replace('\n', ' ').replace('|', '/')[:170]
-    if d in old_rows and d[-1] in 'abc':
+    if d in old_rows and d[4] in 'abc':
         ft, st_ = old_rows[d]
     else:
         ft = 'yes' if m.get('detected_by_own_property_before_strengthening') else 'no'
@@ -28,7 +28,7 @@ for d in sorted(os.listdir('/verif/seeded')):
             st_ = old_rows[d][1]
     n += 1
     first += ft == 'yes'
-    r = per_round.setdefault(d[-1], [0, 0])
+    r = per_round.setdefault(d[4], [0, 0])
     r[0] += 1
     r[1] += ft == 'yes'
     rows.append('| %s | %s | %s | %s |' % (d, summ, ft, st_))
